@@ -163,7 +163,16 @@ func exactDir2(rng *rand.Rand) C2 {
 			d = model2d.XY(float64(rng.Intn(7)-3), float64(rng.Intn(7)-3))
 		}
 		if d.Norm() > 0 {
-			return d.Scale(pick(rng, []float64{1, 1, 0.5, 2, 0.125}))
+			d = d.Scale(pick(rng, []float64{1, 1, 0.5, 2, 0.125}))
+			if rng.Intn(3) == 0 { // zero components of either sign
+				if d.X == 0 {
+					d.X = math.Copysign(0, -1)
+				}
+				if d.Y == 0 {
+					d.Y = math.Copysign(0, -1)
+				}
+			}
+			return d
 		}
 	}
 }
